@@ -163,7 +163,7 @@ func opScenario(r *Run, mode string) {
 	desc := hdr.Chance(1, 2)
 	attrs := map[string]string{"node": opNames[op]}
 
-	script := GenChangelog(t.Block(8*maxSteps+10), ChangelogCfg{MaxSteps: maxSteps, Watermarked: watermarked, Retractions: true, Dups: true,
+	script := GenChangelog(t.Block(stepBlock*maxSteps+10), ChangelogCfg{MaxSteps: maxSteps, Watermarked: watermarked, Retractions: true, Dups: true,
 		Row: opRow, FinalWM: true, RetractSameTime: true, ZeroTimeMix: true})
 	var lookupRows [][]octosql.Value
 	if opNames[op] == "lookup_join" {
